@@ -35,6 +35,9 @@ def hash_groups():
       replace=['__cstl_hash_get_bucket', 'cstl_clean_bucket', '__cstl_hash_rehash'],
       what='keyed access: <= 3 dirty buckets relocated, sweep advances or completes, one hash consultation when idle, bucket in range',
       defines=['-DVF_BYTE_STAMPS'], shards=6, timeout=1500, solver='kissat')
+    for nm, fn, txt in (('find_visit', 'cstl_hash_find_visit', 'one step of a lookup: an element is offered to the visit function exactly when its key matches (once, with the caller\'s private pointer); it becomes the result and stops the walk exactly when it matches and is accepted (or no visit function is given)'),
+                        ('erase_visit', 'cstl_hash_erase_visit', 'one step of an erase: stops exactly at the object passed (pointer identity), otherwise the link cursor advances to the visited node\'s next field')):
+        G.append(Group('hash.' + nm, ['C03'], 'P', S, 'h_' + nm, enforce=fn, sources=[('hash.c', {'loops': L, 'normalise': True})], defines=['-DVF_G_find_visit'], what=txt, unwind=3))
     G.append(Group('hash.insert', ['C03'], 'P', S, 'h_insert', enforce='cstl_hash_insert', replace=['cstl_hash_get_bucket'],
                    sources=[('hash.c', {'loops': L, 'normalise': True})], defines=['-DVF_G_insert', '-DVF_BYTE_STAMPS'], timeout=2400, solver='kissat', tier='thorough', weight=2,
                    what='insert: the element heads the chain of the bucket the effective function selects for its key, key stored, counted; flat and sweep invariants kept (get_bucket replaced by its proved contract)'))
